@@ -1,4 +1,118 @@
-import PyxModel.Meta
+import Proofs.MetaState
+
+/-!
+  C02 — Links stay symmetric, bounded and atomic through any operation history.
+  Property theorems only.  Model: PyxModel/Meta.lean (xtuml/meta.py: two directed link maps per
+  association, `_find_link`, `relate` with undo of the first connect, `unrelate`, `MetaClass.delete`,
+  `new`), for an ARBITRARY schema (any list of `define_association` calls) and histories of any length.
+-/
 namespace PyxProps.C02
-theorem placeholder : True := trivial
+open Pyx.Meta
+
+/-- the invariant of the statement, per association: navigation is symmetric (`y` reachable from `x`
+    iff `x` reachable from `y` in the opposite direction), partner lists are duplicate-free, and a
+    single-valued end holds at most one partner -/
+theorem inv_unfold (sch : Schema) (s : State) :
+    Inv sch s ↔ ∀ i, (∀ x y, y ∈ (s.links i).src x ↔ x ∈ (s.links i).tgt y) ∧
+      ((∀ x, ((s.links i).src x).Nodup) ∧ (∀ y, ((s.links i).tgt y).Nodup)) ∧
+      (((specAt sch i).srcMany = false → ∀ x, ((s.links i).src x).length ≤ 1) ∧
+       ((specAt sch i).tgtMany = false → ∀ y, ((s.links i).tgt y).length ≤ 1)) := Iff.rfl
+
+/-- one step of ANY operation — accepted or rejected, well-typed or not, on any instances —
+    preserves the invariant -/
+theorem inv_step (sch : Schema) (s : State) (op : Op) (h : Inv sch s) : Inv sch (step sch s op).1 := step_inv h op
+
+/-- hence every state reachable by any history of new / relate / unrelate / delete calls satisfies it -/
+theorem inv_reachable (sch : Schema) (ops : List Op) : Inv sch (run sch ops) :=
+  run_inv_from sch ops init (inv_init sch)
+
+/-- a relate that does not return ok (RelateException: a single-valued end would get a second partner;
+    UnknownLinkException: unknown association number, kinds or phrase) leaves the model exactly as it was -/
+theorem relate_reject_atomic (sch : Schema) (s : State) (h : Inv sch s) (x y : Inst) (r p : String)
+    (hr : (relate sch s x y r p).2 ≠ .ok) : (relate sch s x y r p).1 = s := Pyx.Meta.relate_reject_atomic h hr
+
+/-- on the resolved association a relate is rejected exactly when the pair is not yet related and one of
+    the two single-valued ends is already occupied -/
+theorem relate_rejected_iff (a : AssocSpec) (l : ALinks) (x y : Inst) (hsym : Sym l) :
+    (relateOn a l x y).2 = .relateExc ↔
+      (y ∉ l.src x ∧ ((l.src x ≠ [] ∧ a.srcMany = false) ∨ (l.tgt y ≠ [] ∧ a.tgtMany = false))) :=
+  relateOn_reject_iff hsym
+
+/-- an unrelate that does not return ok (UnrelateException: pair not linked; UnknownLinkException)
+    leaves the model exactly as it was; it is rejected exactly when the pair is not linked -/
+theorem unrelate_reject_atomic (sch : Schema) (s : State) (h : Inv sch s) (x y : Inst) (r p : String)
+    (hr : (unrelate sch s x y r p).2 ≠ .ok) : (unrelate sch s x y r p).1 = s := Pyx.Meta.unrelate_reject_atomic h hr
+
+theorem unrelate_rejected_iff (l : ALinks) (x y : Inst) (hsym : Sym l) :
+    (unrelateOn l x y).2 = .unrelateExc ↔ y ∉ l.src x := unrelateOn_reject_iff hsym
+
+/-- an unknown association number / kinds / phrase is rejected with UnknownLinkException, state unchanged -/
+theorem unknown_link_atomic (sch : Schema) (s : State) (x y : Inst) (r p : String)
+    (hf : findLink sch (s.kindOf x) (s.kindOf y) r p = none) :
+    relate sch s x y r p = (s, .unknownLink) ∧ unrelate sch s x y r p = (s, .unknownLink) := by
+  unfold relate unrelate; simp [hf]
+
+/-- `_find_link` is sound: the association it returns carries the requested number and phrase and
+    connects the two kinds in the direction that makes the pair well-typed -/
+theorem find_link_sound (sch : Schema) (k1 k2 : Kind) (r p : String) (i : Nat) (d : Dir)
+    (h : findLink sch k1 k2 r p = some (i, d)) :
+    ∃ a, sch[i]? = some a ∧ a.rel = r ∧
+      (d = .fwd → a.tgtKind = k1 ∧ a.srcKind = k2 ∧ a.tgtPhrase = p) ∧
+      (d = .rev → a.srcKind = k1 ∧ a.tgtKind = k2 ∧ a.srcPhrase = p) := by
+  obtain ⟨a, ha, _, hr⟩ := findLinkFrom_sound sch 0 i d h
+  exact ⟨a, by simpa using ha, hr⟩
+
+/-- relating an already related pair is a no-op returning ok -/
+theorem relate_idempotent (sch : Schema) (s : State) (h : Inv sch s) (x y : Inst) (r p : String) (i : Nat) (d : Dir)
+    (hf : findLink sch (s.kindOf x) (s.kindOf y) r p = some (i, d))
+    (hrel : (orient d x y).2 ∈ (s.links i).src (orient d x y).1) :
+    relate sch s x y r p = (s, .ok) := Pyx.Meta.relate_idempotent h hf hrel
+
+/-- a successful unrelate exactly undoes a successful relate of a previously unrelated pair -/
+theorem unrelate_undoes_relate (sch : Schema) (s s' : State) (h : Inv sch s) (x y : Inst) (r p : String)
+    (i : Nat) (d : Dir) (hf : findLink sch (s.kindOf x) (s.kindOf y) r p = some (i, d))
+    (hnew : (orient d x y).2 ∉ (s.links i).src (orient d x y).1)
+    (hr : relate sch s x y r p = (s', .ok)) : unrelate sch s' x y r p = (s, .ok) :=
+  Pyx.Meta.unrelate_undoes_relate h hf hnew hr
+
+/-- deleting an instance that is not live (never created or already deleted) raises DeleteException
+    and changes nothing; in particular a repeated delete is rejected, in every reachable state -/
+theorem delete_dead_rejected (sch : Schema) (s : State) (x : Inst) (h : ¬ live s x) :
+    delete sch s x = (s, .deleteExc) := Pyx.Meta.delete_dead_rejected sch s x h
+
+theorem delete_twice_rejected (sch : Schema) (ops : List Op) (x : Inst) :
+    delete sch (delete sch (run sch ops) x).1 x = ((delete sch (run sch ops) x).1, .deleteExc) :=
+  Pyx.Meta.delete_twice_rejected (run_poolInv_from sch ops init poolInv_init) x
+
+/-- only live instances are reachable: preserved by creation, by relate of live instances (accepted or
+    rejected) and by unrelate -/
+theorem live_only_new (s : State) (hp : PoolInv s) (hl : LiveOnly s) (k : Kind) (hid : Bool) :
+    LiveOnly (new s k hid).1 := new_liveOnly hp hl k hid
+theorem live_only_relate (sch : Schema) (s : State) (hl : LiveOnly s) (x y : Inst) (r p : String)
+    (hx : live s x) (hy : live s y) : LiveOnly (relate sch s x y r p).1 := relate_liveOnly hl hx hy
+theorem live_only_unrelate (sch : Schema) (s : State) (hl : LiveOnly s) (x y : Inst) (r p : String) :
+    LiveOnly (unrelate sch s x y r p).1 := unrelate_liveOnly hl x y r p
+
+/-
+  NOT YET PROVED (full statement kept; covered by correspondence and the D predicate `dead-reachable`):
+
+  theorem live_only_delete (sch : Schema) (s : State) (hs : SchemaOk sch) (ht : Typed sch s) (h : Inv sch s)
+      (hl : LiveOnly s) (x : Inst) : LiveOnly (delete sch s x).1 ∧ (delete sch s x).2 ≠ .unrelateExc
+  -- i.e. `MetaClass.delete` disconnects every link of the deleted instance, for schemas in which
+  -- (rel id, kinds, phrase) determine the association and direction.
+-/
+
+/-! non-vacuity: a concrete history over a 1:1 schema reaches a state with one link; the rejected relate
+    of a second partner returns RelateException and leaves that state unchanged -/
+def sch11 : Schema :=
+  [{ rel := "R1", srcKind := 0, srcKeys := ["B_Id"], srcMany := false, srcCond := true, srcPhrase := "",
+     tgtKind := 1, tgtKeys := ["Id"], tgtMany := false, tgtCond := true, tgtPhrase := "" }]
+def hist : List Op := [.new 0 true, .new 1 true, .new 1 true, .relate 0 1 "R1" ""]
+example : ((run sch11 hist).links 0).tgt 0 = [1] ∧ ((run sch11 hist).links 0).src 1 = [0] ∧
+    (relate sch11 (run sch11 hist) 0 2 "R1" "").2 = .relateExc ∧
+    ((relate sch11 (run sch11 hist) 0 2 "R1" "").1.links 0).src 2 = [] ∧
+    (unrelate sch11 (run sch11 hist) 0 2 "R1" "").2 = .unrelateExc ∧
+    (relate sch11 (run sch11 hist) 0 2 "R9" "").2 = .unknownLink ∧
+    live (run sch11 hist) 0 ∧ ¬ live (delete sch11 (run sch11 hist) 0).1 0 := by decide
+
 end PyxProps.C02
